@@ -32,8 +32,12 @@ RECURSIVE AugWhenUses(_)
 AugWhenUses(st) == (st.kw = "augment" /\ Has(st, "when") /\ Has(st, "uses")) \/ \E i \in 1..Len(st.subs) : AugWhenUses(st.subs[i])
 RECURSIVE DeepHas(_, _)
 DeepHas(st, kw) == st.kw = kw \/ \E i \in 1..Len(st.subs) : DeepHas(st.subs[i], kw)
+RECURSIVE ForeignUsesLocalAug(_)
+ForeignUsesLocalAug(st) == (st.kw = "uses" /\ st.arg[1] # "" /\ \E a \in Range(Sub(st, "augment")) : \E u \in Range(Sub(a, "uses")) : u.arg[1] = "")
+                           \/ \E i \in 1..Len(st.subs) : ForeignUsesLocalAug(st.subs[i])
 InputClasses(M) == {"feature-in-submodule" : i \in {j \in 1..Len(M) : M[j].kw = "submodule" /\ Has(M[j], "feature")}}
               \cup {"uses-in-augment-with-when" : i \in {j \in 1..Len(M) : AugWhenUses(M[j])}}
+              \cup {"local-uses-in-augment-of-foreign-uses" : i \in {j \in 1..Len(M) : ForeignUsesLocalAug(M[j])}}
               \cup {"scoped-grouping-in-submodule" : i \in {j \in 1..Len(M) : M[j].kw = "submodule" /\ \E k \in 1..Len(M[j].subs) : M[j].subs[k].kw # "grouping" /\ DeepHas(M[j].subs[k], "grouping")}}
 
 CaseOf(m, e, alt) == [m |-> m, e |-> e, alt |-> alt, fl |-> <<>>]
@@ -522,9 +526,69 @@ G6(u_) == UNION { {
               Module("a", <<"lib">>, <<Cont("top", sc \o <<Uses("lib", "g", <<>>)>>)>>)>>, {}, "inline") }
    : sf \in Stats, sm \in St3, sc \in St3 }
 
+\* ---------------------------------------------------------------- round 5
+\* F13: uses -> augment -> uses over three modules: outer grouping, inner grouping and using module pairwise different
+\* (and the inner grouping local to the using module, scoped in it, or in its submodule)
+F13(u_) == { CaseOf(m, {}, "inline") : m \in {
+   << Module("a", <<>>, <<Grouping("G", <<Cont("c", <<Leaf("x", <<>>)>>), Leaf("gl", <<>>)>>)>>),
+      Module("c", <<>>, <<Grouping("H", <<Leaf("hx", <<P("must", "../x")>>), Cont("hc", <<Leaf("hy", <<>>)>>)>>)>>),
+      Module("b", <<"a", "c">>, <<Cont("top", <<Uses("a", "G", <<Augment(<<"", "c">>, <<Uses("c", "H", <<>>), Leaf("own", <<>>)>>)>>)>>)>>) >>,
+   << Module("a", <<>>, <<Grouping("G", <<Cont("c", <<Leaf("x", <<>>)>>)>>)>>),
+      Module("c", <<>>, <<Grouping("H2", <<Leaf("deep", <<>>)>>), Grouping("H", <<Cont("hc", <<Uses("", "H2", <<>>)>>)>>)>>),
+      Module("b", <<"a", "c">>, <<Uses("a", "G", <<Augment(<<"", "c">>, <<Uses("c", "H", <<Augment(<<"", "hc">>, <<Leaf("own", <<>>)>>)>>)>>)>>)>>) >>,
+   << Module("a", <<>>, <<Grouping("G", <<Cont("c", <<Leaf("x", <<>>)>>)>>)>>),
+      Module("b", <<"a">>, <<Grouping("H", <<Leaf("hx", <<>>)>>), Cont("top", <<Uses("a", "G", <<Augment(<<"", "c">>, <<Uses("", "H", <<>>), Leaf("own", <<>>)>>)>>)>>)>>) >>,
+   << Module("a", <<>>, <<Grouping("G", <<Cont("c", <<Leaf("x", <<>>)>>)>>)>>),
+      Module("b", <<"a">>, <<Cont("top", <<Grouping("H", <<Leaf("hx", <<>>)>>), Uses("a", "G", <<Augment(<<"", "c">>, <<Uses("", "H", <<>>)>>)>>)>>)>>) >>,
+   << Module("a", <<>>, <<Grouping("G", <<Cont("c", <<Leaf("x", <<>>)>>)>>)>>),
+      Submodule("bs", "b", <<>>, <<Grouping("H", <<Leaf("hx", <<>>)>>)>>),
+      Module("b", <<"a">>, <<Include("bs"), Cont("top", <<Uses("a", "G", <<Augment(<<"", "c">>, <<Uses("", "H", <<>>)>>)>>)>>)>>) >>,
+   << Module("a", <<>>, <<Grouping("G", <<Cont("c", <<Leaf("x", <<>>)>>)>>), Cont("atop", <<Leaf("al", <<>>)>>)>>),
+      Module("c", <<>>, <<Grouping("H", <<Leaf("hx", <<>>)>>)>>),
+      Module("b", <<"a", "c">>, <<Augment(<<"a", "atop">>, <<Uses("a", "G", <<Augment(<<"", "c">>, <<Uses("c", "H", <<>>)>>)>>)>>)>>) >> } }
+
+\* F14: chains of augments (an augment into a node that an earlier augment introduced), 2 and 3 links, same module and
+\* across modules, with if-feature / when / status on the augment statement of each link, under every feature set
+F14X(f) == { <<>>, <<IfF("", f)>> }
+F14Sets(x1, x2, x3) == {
+   << Module("a", <<>>, <<Feature("f1", <<>>), Feature("f2", <<>>), Feature("f3", <<>>), Cont("top", <<Leaf("t", <<>>)>>),
+                          Augment(<<"", "top">>, x1 \o <<Cont("n1", <<Leaf("l1", <<>>)>>)>>),
+                          Augment(<<"", "top", "", "n1">>, x2 \o <<Cont("n2", <<Leaf("l2", <<>>)>>)>>),
+                          Augment(<<"a", "top", "a", "n1", "a", "n2">>, x3 \o <<Leaf("l3", <<>>)>>)>>) >>,
+   << Module("a", <<>>, <<Cont("top", <<Leaf("t", <<>>)>>)>>),
+      Module("c", <<"a">>, <<Feature("f1", <<>>), Feature("f2", <<>>), Feature("f3", <<>>),
+                            Augment(<<"a", "top">>, x1 \o <<Cont("n1", <<Leaf("l1", <<>>)>>)>>),
+                            Augment(<<"a", "top", "c", "n1">>, x2 \o <<Cont("n2", <<Leaf("l2", <<>>)>>)>>),
+                            Augment(<<"a", "top", "c", "n1", "c", "n2">>, x3 \o <<Leaf("l3", <<>>)>>)>>) >>,
+   << Module("a", <<>>, <<Feature("f1", <<>>), Cont("top", <<Leaf("t", <<>>)>>), Augment(<<"", "top">>, x1 \o <<Cont("n1", <<Leaf("l1", <<>>)>>)>>)>>),
+      Module("c", <<"a">>, <<Feature("f2", <<>>), Feature("f3", <<>>), Augment(<<"a", "top", "a", "n1">>, x2 \o <<Choice("n2", <<Case("k", <<Leaf("l2", <<>>)>>)>>)>>),
+                            Augment(<<"a", "top", "a", "n1", "c", "n2">>, x3 \o <<Leaf("l3", <<>>)>>)>>) >> }
+F14(u_) == UNION { { CaseOf(m, e, "inline") : m \in F14Sets(x1, x2, x3) }
+                   : x1 \in F14X("f1"), x2 \in F14X("f2"), x3 \in F14X("f3"),
+                     e \in FeatSets({<<"a", "f1">>, <<"a", "f2">>, <<"a", "f3">>}) \cup {{<<"c", "f1">>, <<"c", "f2">>, <<"c", "f3">>}, {<<"c", "f1">>}, {<<"c", "f2">>, <<"c", "f3">>}, {<<"c", "f1">>, <<"c", "f3">>},
+                                                                                    {<<"a", "f1">>, <<"c", "f2">>}, {<<"a", "f1">>, <<"c", "f3">>}, {<<"c", "f2">>}} }
+       \cup UNION { { CaseOf(m, {}, "inline") : m \in F14Sets(x1, x2, <<>>) }
+                   : x1 \in {<<P("when", "t = 'v'")>>, <<P("status", "deprecated")>>}, x2 \in {<<>>, <<P("when", "l1")>>, <<P("status", "deprecated")>>, <<P("status", "obsolete")>>} }
+       \cup { CaseOf(<<Module("a", <<>>, <<Cont("top", <<Leaf("t", <<>>)>>), Augment(<<"", "top", "", "n1">>, <<Leaf("late", <<>>)>>), Augment(<<"", "top">>, <<Cont("n1", <<>>)>>)>>)>>, {}, "none"),
+              CaseOf(<<Module("a", <<>>, <<Cont("top", <<Leaf("t", <<>>)>>), Augment(<<"", "top", "", "nope">>, <<Leaf("late", <<>>)>>), Augment(<<"", "top">>, <<Cont("n1", <<>>)>>)>>)>>, {}, "none") }
+
+\* G7: status in force along multi-step paths: a uses may not reach (refine, augment) through a node of its own module
+\* that is more obsolete than itself, also when the final target states nothing
+G7G(s1, s2) == Grouping("g", <<Cont("old", s1 \o <<Cont("inner", s2 \o <<Leaf("x", <<>>)>>), Leaf("o", <<>>)>>)>>)
+G7Uses(p, k, su) == CASE k = 1 -> Uses(p, "g", su \o <<Refine(<<"", "old", "", "inner", "", "x">>, <<P("default", "d")>>)>>)
+                      [] k = 2 -> Uses(p, "g", su \o <<Refine(<<"", "old", "", "inner">>, <<P("description", "r")>>)>>)
+                      [] k = 3 -> Uses(p, "g", su \o <<Augment(<<"", "old", "", "inner">>, <<Leaf("n", <<>>)>>)>>)
+                      [] k = 4 -> Uses(p, "g", su \o <<Refine(<<"", "old", "", "o">>, <<P("default", "d")>>)>>)
+G7(u_) == UNION { {
+     CaseOf(<<Module("a", <<>>, <<G7G(s1, s2), Cont("top", sc \o <<G7Uses("", k, su)>>)>>)>>, {}, "inline"),
+     CaseOf(<<Module("b", <<>>, <<G7G(s1, s2)>>), Module("a", <<"b">>, <<Cont("top", sc \o <<G7Uses("b", k, su)>>)>>)>>, {}, "inline") }
+   : s1 \in St3, s2 \in St3, su \in Stats, sc \in {<<>>, <<P("status", "deprecated")>>}, k \in 1..4 }
+   \cup { CaseOf(<<Module("a", <<>>, <<Cont("top", <<Cont("old", s1 \o <<Cont("inner", s2 \o <<Leaf("x", <<>>)>>)>>)>>), Augment(<<"", "top", "", "old", "", "inner">>, sa \o <<Leaf("n", <<>>)>>)>>)>>, {}, "none")
+           : s1 \in St3, s2 \in St3, sa \in Stats }
+
 Family(name) == CASE name = "F1" -> F1(Bodies(0)) [] name = "F1q" -> F1(BodiesA(0)) [] name = "F2" -> F2(0) [] name = "F3" -> F3(0) [] name = "F4" -> F4(0) [] name = "F5" -> F5(0) [] name = "F6" -> F6(F6Extras(0)) [] name = "F6q" -> F6({<<>>, <<P("when", "1 = 1")>>}) [] name = "F7" -> F7(0) [] name = "F8" -> F8(0)
                   [] name = "G1c" -> G1K("container") [] name = "G1l" -> G1K("list") [] name = "G1h" -> G1K("choice")
                   [] name = "G2a" -> G2D(1) [] name = "G2b" -> G2D(2) [] name = "G2c" -> G2D(3) [] name = "G2d" -> G2D(4) [] name = "G2e" -> G2D(5)
                   [] name = "G2X" -> G2X(0) [] name = "G2S" -> G2S(0) [] name = "G3" -> G3(0) [] name = "G4" -> G4(0) [] name = "G4X" -> G4X(0)
-                  [] name = "H1q" -> H1(7) [] name = "H1" -> H1(11) [] name = "H2" -> H2(0) [] name = "H3" -> H3(0) [] name = "H4" -> H4(0) [] name = "F9" -> F9(0) [] name = "F10" -> F10(0) [] name = "F11" -> F11(0) [] name = "F12" -> F12(0) [] name = "G5" -> G5(0) [] name = "G6" -> G6(0) [] name = "G2T" -> G2T(0) [] name = "H5" -> H5(0) [] name = "H6" -> H6(0)
+                  [] name = "H1q" -> H1(7) [] name = "H1" -> H1(11) [] name = "H2" -> H2(0) [] name = "H3" -> H3(0) [] name = "H4" -> H4(0) [] name = "F9" -> F9(0) [] name = "F10" -> F10(0) [] name = "F11" -> F11(0) [] name = "F12" -> F12(0) [] name = "G5" -> G5(0) [] name = "G6" -> G6(0) [] name = "F13" -> F13(0) [] name = "F14" -> F14(0) [] name = "G7" -> G7(0) [] name = "G2T" -> G2T(0) [] name = "H5" -> H5(0) [] name = "H6" -> H6(0)
 =============================================================================
